@@ -1,5 +1,6 @@
 import LyModel.XPath.Eval
 import LyModel.XPath.FloatNum
+import LyModel.XPath.Set
 /-!
 driver ops of component `xpath` (C08).  The driver is stateless, so every evaluation request carries the document:
 
@@ -143,8 +144,45 @@ def run (mask : Nat) (ctx astH dumpH : String) (findOnly : Bool) : String :=
     | _, none => "err BadDump"
   | _, _, _ => "err BadArg"
 
+def parseItems (s : String) : Option (List Set.Item) :=
+  if s == "-" then some [] else
+  (s.splitOn ",").mapM fun it =>
+    match it.splitOn ":" with
+    | [p, n, t] => do
+      let ty ← (match t with | "r" => some Set.NodeType.root | "e" => some .elem | "t" => some .text | _ => none)
+      pure { pos := ← p.toNat?, node := ← n.toNat?, type := ty }
+    | _ => none
+
+def showItems (l : List Set.Item) : String :=
+  if l.isEmpty then "-" else
+  ",".intercalate (l.map fun i => toString i.pos ++ ":" ++ toString i.node ++ ":" ++
+    (match i.type with | .root => "r" | .elem => "e" | .text => "t"))
+
+def parseKeys (s : String) : Option (List Nat) :=
+  if s == "-" then some [] else (s.splitOn ",").mapM String.toNat?
+
+def showKeys (l : List Nat) : String := if l.isEmpty then "-" else ",".intercalate (l.map toString)
+
+def keyItem (k : Nat) : Set.Item := { pos := k / 2 + 1, node := k / 2, type := if k % 2 == 1 then .text else .elem }
+def itemKey (i : Set.Item) : Nat := 2 * i.node + (if i.type == .text then 1 else 0)
+
 def handle (op : String) (args : List String) : String :=
   match op, args with
+  | "sort", [a] =>
+    match parseItems a with
+    | some l => let r := Set.setSort Set.sortCompare l; "ok " ++ toString r.2 ++ " " ++ showItems r.1
+    | none => "err BadArg"
+  | "sortk", [a] =>
+    match parseKeys a with
+    | some l => let r := Set.setSort Set.sortCompare (l.map keyItem); "ok " ++ toString r.2 ++ " " ++ showKeys (r.1.map itemKey)
+    | none => "err BadArg"
+  | "mergek", [a, b] =>
+    match parseKeys a, parseKeys b with
+    | some t, some s =>
+      match Set.sortedMerge t s with
+      | some r => "ok " ++ showKeys r ++ " 1"
+      | none => "err OutOfBounds"
+    | _, _ => "err BadArg"
   | "schema", _ :: _ => "ok"
   | "tree", [_, _, dumpH] =>
     match Hex.dec dumpH with
